@@ -103,8 +103,8 @@ class Ctx:
         blob = json.dumps({'property': self.prop, 'signature': signature, 'what': what, 'replay': replay,
                            'seed': self.seed, 'tier': self.tier}, indent=1, sort_keys=True, default=str)
         hid = hashlib.sha1(blob.encode()).hexdigest()[:12]
-        path = VERIF / 'replays' / f'{self.prop}-{hid}.json'
-        path.parent.mkdir(exist_ok=True)
+        path = (VERIF / 'replays' if str(REPO) == '/repo' else Path('/var/tmp/fjverif-replays-scratch')) / f'{self.prop}-{hid}.json'
+        path.parent.mkdir(parents=True, exist_ok=True)
         path.write_text(blob)
         self.violations.append((sigkey, what, str(path), no_input))
 
@@ -128,8 +128,11 @@ class Ctx:
         ev = {'property_id': self.prop, 'tier': self.tier, 'seed': self.seed, 'level': self.level,
               'coverage': cov, 'assumptions': self.assumptions, 'wall_s': round(time.time() - self.t0, 2),
               'violations': len(self.violations), 'repo': str(REPO)}
-        (VERIF / 'evidence').mkdir(exist_ok=True)
-        (VERIF / 'evidence' / f'{self.prop}.json').write_text(json.dumps(ev, indent=1, default=str) + '\n')
+        # runs against a scratch copy of the repository (seeded changes) must not overwrite the committed evidence
+        evdir = Path(os.environ['FJVERIF_EVIDENCE_DIR']) if os.environ.get('FJVERIF_EVIDENCE_DIR') else (
+            VERIF / 'evidence' if str(REPO) == '/repo' else Path('/var/tmp/fjverif-evidence-scratch'))
+        evdir.mkdir(parents=True, exist_ok=True)
+        (evdir / f'{self.prop}.json').write_text(json.dumps(ev, indent=1, default=str) + '\n')
         for fid, what in sorted(self.known_hits.items()):
             print(f'KNOWN-FINDING: property={self.prop} {fid}: {what}')
         for _, what, path, no_input in self.violations:
